@@ -167,12 +167,16 @@ package components
 //@   loop 0 invariant only-ports: forall k string :: k in ips ==> $visited[k]
 //@   loop 1 invariant results-kept: p == old(p) && ips != nil
 
+// selChanOf(p): the channel of aligned tuples that syncRead makes for p (a name for it, so that Run's contract can say
+// that the loop over it ends only when it is closed and drained)
+//@ ghost func selChanOf(p ref) ref
 //@ func (*IPSelectorSync).syncRead(p) (ipSetChan)
 //@   props C19
 //@   requires wf: wfInPorts(p.inPorts) && (forall k string :: k in p.inPorts ==> selTupleKey(k))
 //@   trusted-frame starts the reading go-routine (syncRead$1, verified below), which only receives on the in-ports and sends on the channel made here
 //@   modifies chan, fresh
 //@   ensures nonnil: ipSetChan != nil
+//@   assumes names-the-tuple-channel: ipSetChan == selChanOf(p)
 
 //@ func (*IPSelectorSync).syncRead$1()
 //@   props C19
@@ -188,6 +192,7 @@ package components
 //@   props C19
 //@   requires wf: wfInPorts(p.inPorts) && selOutsOK(p) && (forall k string :: k in p.inPorts ==> selTupleKey(k))
 //@   modifies *
+//@   atreturn every-aligned-tuple-is-considered[C19]: chanRecvN(selChanOf(p)) == chanTotal(selChanOf(p))
 //@   atcall (*OutPort).Send forwards-only-tuples-whose-members-all-pass[C19]: forall k string :: k in ips ==> selIncludes(ips[k])
 //@   atcall (*OutPort).Send member-goes-to-the-out-port-named-like-its-in-port[C19]: $arg1 == ips[iname] && $arg0 == p.outPorts[iname]
 //@   loop 0 invariant stable: p == old(p) && p.outPorts == old(p.outPorts) && selOutsOK(p)
